@@ -4,13 +4,15 @@
 
    Input (stdin), one case per line, blank separated:
      ROW <id> FN <vararg> <nres> <type>* PROTO <vararg> <nres> <type>* <nargs> (<type> <size>)*
-         NI <n> (INS <opname> <nops> <operand>*)* EXEC <0|1>
+         NI <n> (INS <opname> <nops> <operand>*)* USE <0|1> EXEC <0|1>     (USE: load and link when accepted)
        operand: r:<i64|f|d|ld|undecl> | int | uint | float | double | ldouble | ref:<item kind> | str | label
                 | mem:<type>:<base>:<index>:<disp>      base/index: none i f d ld undecl
      DREG <id> <npre> (<name> <type>)* <name> <type>          MIR_new_func_reg after npre declarations
      DFUNC <id> <vararg> <nres> <type>* <nargs> (<name> <type> <size>)*   MIR_new_func_arr
      PATH <id> <nsteps> (<act> <name>)*                        protocol path, one API call per step
-     TEXT <id> <hex of MIR text>                               the same row through MIR_scan_string
+     TEXT <id> <use> <hex of MIR text>                             the same row through MIR_scan_string
+     OPCODES <id>                                              list the implementation's opcode names
+     CRASHME <id>                                              selftest of the crash detection
    Output: one line per stage
      RES <id> build ACCEPT | RES <id> build ERROR <code> <codename> <message>
      RES <id> load|link|exec OK / ERROR ...        (accepted rows only)
@@ -81,12 +83,15 @@ static MIR_type_t str2type (const char *s) {
   _exit (3);
 }
 
+static const char *cur_id = "?";
 static MIR_insn_code_t str2code (MIR_context_t ctx, const char *s) {
   for (int c = 0; c < MIR_INSN_BOUND; c++)
     if (strcmp (MIR_insn_name (ctx, (MIR_insn_code_t) c), s) == 0) return (MIR_insn_code_t) c;
-  printf ("MACHINERY unknown opcode %s\n", s);
+  /* an opcode MIR.md documents but the implementation does not have: reported, not replayable */
+  printf ("RES %s build NOOPCODE %s\n", cur_id, s);
+  printf ("END %s\n", cur_id);
   fflush (stdout);
-  _exit (3);
+  _exit (0);
 }
 
 /* ---------------- the common scaffold of a row */
@@ -242,7 +247,7 @@ static void build_insns (env_t *e) {
 
 static void do_row (const char *id) {
   env_t e;
-  int start = tp, exec_p, i;
+  int start = tp, exec_p, use_p, i;
   volatile int stage_err = 0;
   char *line_copy[4096];
 
@@ -251,6 +256,7 @@ static void do_row (const char *id) {
   for (i = ntok - 1; i >= 0 && strcmp (toks[i], "EXEC") != 0; i--)
     ;
   exec_p = i >= 0 && atoi (toks[i + 1]);
+  use_p = i >= 2 && strcmp (toks[i - 2], "USE") == 0 ? atoi (toks[i - 1]) : 1;
   e.ctx = MIR_init ();
   MIR_set_error_func (e.ctx, errf);
   if (setjmp (jb)) {
@@ -260,6 +266,7 @@ static void do_row (const char *id) {
   scaffold (&e, 0);
   build_insns (&e);
   say (id, "build", 0);
+  if (!use_p) return;
   /* the accepted function must be usable: load, link */
   if (setjmp (jb)) {
     say (id, "load", 1);
@@ -435,6 +442,7 @@ static void do_path (const char *id) {
 
 static void do_text (const char *id) {
   MIR_context_t ctx = MIR_init ();
+  int use_p = (int) tokl ();
   const char *hex = tok ();
   size_t n = strlen (hex) / 2;
   char *text = malloc (n + 1);
@@ -453,6 +461,7 @@ static void do_text (const char *id) {
   }
   MIR_scan_string (ctx, text);
   say (id, "build", 0);
+  if (!use_p) return;
   if (setjmp (jb)) {
     say (id, "load", 1);
     return;
@@ -482,6 +491,7 @@ int main (int argc, char **argv) {
     kind = toks[0];
     id = toks[1];
     tp = 2;
+    cur_id = id;
     ncase++;
     fflush (stdout);
     pid_t pid = nofork ? 0 : fork ();
@@ -501,9 +511,15 @@ int main (int argc, char **argv) {
         do_path (id);
       else if (strcmp (kind, "TEXT") == 0)
         do_text (id);
-      else {
+      else if (strcmp (kind, "OPCODES") == 0) { /* names of all opcodes of the implementation */
+        MIR_context_t ctx = MIR_init ();
+        printf ("OPS %s", id);
+        for (int c = 0; c < MIR_INSN_BOUND; c++) printf (" %s", MIR_insn_name (ctx, (MIR_insn_code_t) c));
+        printf ("\n");
+      } else if (strcmp (kind, "CRASHME") == 0)
+        raise (SIGSEGV);
+      else
         printf ("MACHINERY unknown line kind %s\n", kind);
-      }
       printf ("END %s\n", id);
       fflush (stdout);
       if (!nofork) _exit (0);
